@@ -22,7 +22,7 @@ RULE = (
 )
 TIERS = {"quick": {"shards": 8, "n": 16, "budget_s": 230}, "thorough": {"shards": 16, "n": 600, "budget_s": 2700}}
 FLOOR = {"quick": 40, "thorough": 2000}
-REQUIRED_LABELS = {"quick": ["module-with-unexported-helper", "dry-run", "real-run", "out:populated", "out:absent", "out:empty", "recursive", "blacklist", "sqlalchemy-submodule", "init-reexports-subpackage"], "thorough": []}
+REQUIRED_LABELS = {"quick": ["module-with-unexported-helper", "dry-run", "real-run", "out:populated", "out:absent", "out:empty", "recursive", "blacklist", "sqlalchemy-submodule", "init-reexports-subpackage", "root-lists"], "thorough": []}
 ASSUMPTIONS = [
     "generated trees for black/whitelist cases do not re-export across the list boundary; the clause is checked at the granularity the tool implements (package FQN)",
     "P31: emit kinds pydantic / json_schema / sqlalchemy raise TypeError; for them only 'stays inside the output dir / source untouched / dry-run writes nothing' is checked, which holds whether or not the call raises",
@@ -260,12 +260,75 @@ def one(r, case):
         shutil.rmtree(root, ignore_errors=True)
 
 
+LIST_COMBOS = [([], []), (["R"], []), ([], ["R"]), ([], ["O"]), (["R"], ["R"]), (["O"], ["R"]), (["R"], ["O"]), (["R", "O"], ["R", "O"])]
+
+
+def oracle_root_lists(case):
+    """black/whitelist at the granularity that works on the unchanged tree: exmod of a DOTTED module (`pkg.sub0`) whose
+    own FQN is / is not in the lists.  All eight combinations are enumerated: the module's own files are written iff
+    it is not black-listed and (the whitelist is empty or names it) - a whitelist entry never overrides the blacklist."""
+    r = Result()
+    r.label("root-lists", "emit:" + case["emit"], "recursive" if case["recursive"] else "flat")
+    for B, W in LIST_COMBOS:
+        _counter[0] += 1
+        root = tempfile.mkdtemp(prefix="c20r_", dir="/dev/shm" if os.path.isdir("/dev/shm") else None)
+        pkg = "vr%d_%d" % (os.getpid(), _counter[0])
+        sys.path.insert(0, root)
+        try:
+            write_tree(root, pkg, case["tree"])
+            names = {"R": pkg + ".sub0", "O": pkg + ".elsewhere"}
+            out = os.path.join(root, "out")
+            src_before = monitor.snapshot(os.path.join(root, pkg))
+            buf, old = io.StringIO(), eu.EXMOD_OUT_STREAM
+            eu.EXMOD_OUT_STREAM = buf
+            exc = None
+            try:
+                with core.quiet():
+                    cdd.compound.exmod.exmod(
+                        emit_name=[case["emit"]], module=names["R"], blacklist=[names[x] for x in B], whitelist=[names[x] for x in W], output_directory=out,
+                        target_module_name="gold", mock_imports=False, emit_sqlalchemy_submodule=False, extra_modules=None, no_word_wrap=None, recursive=case["recursive"], dry_run=False,
+                    )
+            except BaseException as e:
+                if isinstance(e, (core.CaseTimeout, KeyboardInterrupt)):
+                    raise
+                exc = e
+            finally:
+                eu.EXMOD_OUT_STREAM = old
+            if exc is not None:
+                r.exc.append(core.exc_bucket(exc))
+                continue
+            own = []
+            if os.path.isdir(out):
+                for dp, _ds, fs in os.walk(out):
+                    rel = os.path.relpath(dp, out)
+                    if rel == "." or rel.split(os.sep)[0] == "gold":
+                        own += [os.path.join(rel, f) for f in fs if f.endswith(".py")]
+            want = ("R" not in B) and (not W or "R" in W)
+            if bool(own) != want:
+                r.fail("root-lists", "blacklist=%s whitelist=%s (R = the module itself): module files %s, expected %s" % (B, W, own[:4] or "none", "some" if want else "none"))
+            if monitor.snapshot(os.path.join(root, pkg)) != src_before:
+                src_touched = True
+                r.fail("source-modified", "root-lists run modified the source package")
+        finally:
+            sys.path.remove(root)
+            for m in [m for m in sys.modules if m.split(".")[0] == pkg]:
+                del sys.modules[m]
+            shutil.rmtree(root, ignore_errors=True)
+    r.nontrivial = True
+    return r
+
+
+def layer_root_lists(ctx):
+    strat = case_strategy().filter(lambda c: c["tree"]["levels"] >= 2 and c["emit"] in ("class", "function", "argparse", "sqlalchemy_table", "sqlalchemy_hybrid")).map(lambda c: dict(c, layer="root-lists"))
+    ctx.run_given("root-lists", strat, oracle_root_lists, max(2, ctx.cfg["n"] // 4))
+
+
 def layer_main(ctx):
     ctx.run_given("exmod", strategy(ctx), oracle, ctx.cfg["n"])
 
 
-LAYERS = [("exmod", layer_main)]
+LAYERS = [("exmod", layer_main), ("root-lists", layer_root_lists)]
 
 
 def replay(case):
-    return oracle(case)
+    return oracle_root_lists(case) if case.get("layer") == "root-lists" else oracle(case)
